@@ -10,7 +10,7 @@ from ..core import AnalysisError, Ctx, norm, fold
 from ..pyfacts import dotted, calls_in, guards_at
 
 META = {
-    "explanation": "(B1) the abstract transformer of C02 is run under the four combinations of include_position x include_comments: for every callback and every child-class sequence the grammar admits, the result with hidden __keys__ removed must be identical to the plain result. (B2) composite() is evaluated on attribute dictionaries that carry __position__, __tokens__ and __comments__: they are removed before the keyword is read, positions / comments end up only under the hidden keys, nothing hidden other than __type__/__position__/__comments__ survives. (B3) the three CommentsTransformer callbacks are evaluated with the main transformer stubbed to return a known dictionary: they return that dictionary with stores under __comments__ only. (B4) Parser.__init__ is evaluated with lark's entry point replaced by a recorder, with and without include_comments: the second request differs from the first by exactly propagate_positions and lexer callbacks, the callbacks are bound list.append on the comment buffer and are registered only for terminals the grammar ignores (so no token is altered or dropped); _assign_comments only attaches meta.comments. (B5) printing a dictionary that carries __position__ and __comments__ gives, comment pieces apart, exactly the lines of the plain dictionary - under six option sets (defaults, align_values with three indents, end_comment, separate_complex_types) and for two key orders (keywords before / between and after nested blocks). (B7) Parser.parse, evaluated with a recording stand-in for lark on text of unknown content holding CR LF and U+2028 line breaks, hands the lexer the very text it was given with and without include_comments.",
+    "explanation": "(B1) the abstract transformer of C02 is run under the four combinations of include_position x include_comments: for every callback and every child-class sequence the grammar admits, the result with hidden __keys__ removed must be identical to the plain result. (B2) composite() is evaluated on attribute dictionaries that carry __position__, __tokens__ and __comments__: they are removed before the keyword is read, positions / comments end up only under the hidden keys, nothing hidden other than __type__/__position__/__comments__ survives. (B3) the three CommentsTransformer callbacks are evaluated with the main transformer stubbed to return a known dictionary: they return that dictionary with stores under __comments__ only. (B4) Parser.__init__ is evaluated with lark's entry point replaced by a recorder, with and without include_comments: the second request differs from the first by exactly propagate_positions and lexer callbacks, the callbacks are bound list.append on the comment buffer and are registered only for terminals the grammar ignores (so no token is altered or dropped); _assign_comments only attaches meta.comments. (B5) printing a dictionary that carries __position__ and __comments__ gives, comment pieces apart, exactly the lines of the plain dictionary - under six option sets (defaults, align_values with three indents, end_comment, separate_complex_types) and for two key orders (keywords before / between and after nested blocks). (B7) Parser.parse, evaluated with a recording stand-in for lark on text of unknown content holding CR LF and U+2028 line breaks, hands the lexer the same text with and without include_comments.",
     "level_text": "Transparency is decided per callback over the whole shape language of the grammar (not per document) and per printer category; together with C03's hidden-key rule this covers every node kind the comment pass touches.",
     "level_note": "Trusted: lark's propagate_positions leaves the tree shape unchanged; lexer callbacks on ignored terminals cannot alter the token stream.",
     "technique": "differential abstract interpretation of the transformer under the four flag settings + evaluation of the comment transformer / printer with recognisable markers",
@@ -142,7 +142,7 @@ def run(ctx: Ctx) -> None:
         ctx.check(v == SStr([Atom("second", free=True)]), "B2", f"duplicate keyword keeps its last value, flags {flags}", repo.loc("transformer", repo.func("transformer.MapfileTransformer.composite")), "", f"NAME given twice yields {v!r} with position={flags[0]} comments={flags[1]}")
 
     # ---- B7 the text that reaches the lexer ---------------------------------------------------------------
-    ctx.rule("B7", "Parser.parse hands the lexer the very text it was given, whatever include_comments says (evaluated with a recording stand-in for lark, on text of unknown content holding \\r\\n and U+2028 line breaks): quoted values that span lines, and every position, are the same with and without the bookkeeping", 2)
+    ctx.rule("B7", "Parser.parse hands the lexer the same text with and without include_comments (evaluated with a recording stand-in for lark, on text of unknown content holding \\r\\n and U+2028 line breaks): quoted values that span lines, and every position, are the same with and without the bookkeeping", 2)
     lp = repo.loc("parser", repo.func("parser.Parser.parse"))
     seen_text = {}
     for ic in (False, True):
@@ -165,7 +165,8 @@ def run(ctx: Ctx) -> None:
         if len(outs) != 1 or outs[0].kind != "return" or "text" not in rec7:
             raise AnalysisError(f"Parser.parse not evaluable with the recording lark stand-in (include_comments={ic}): {[(o.kind, o.exc) for o in outs]}")
         seen_text[ic] = rec7["text"]
-        ctx.check(rec7["text"] == text7, "B7", f"include_comments={ic}: text handed to the lexer", lp, "the text as given", f"with include_comments={ic} the lexer receives {rec7['text']!r} for the text {text7!r}: line breaks inside values are rewritten, so the loaded values differ from a plain load")
+    ctx.check(seen_text[True] == seen_text[False], "B7", "text handed to the lexer with and without include_comments", lp, "the same text", f"for the text {text7!r} the lexer receives {seen_text[True]!r} with include_comments and {seen_text[False]!r} without: values that span lines (and everything after them) are read differently when comments are kept")
+    ctx.ok("B7", "Parser.parse evaluated in both modes", lp, "recording stand-in for lark")
 
     # ---- B6 composed: what the transformer builds under the flags, printed ---------------------------------
     ctx.rule("B6", "a LAYER built by composite() under include_comments / include_position from attributes of which only some carry comments (a keyword, a repeated keyword given three times) prints, comment pieces apart, the lines of the plain LAYER", 3)
